@@ -112,6 +112,11 @@ PROPS = {
         "parts": [part("v2in", "TestVerif_C12_Trees", "trees", 1200, 16000, shards=(8, 16)),
                   part("ext", "TestVerif_C12_Default", "default-classifier", 0, 0, shards=(4, 16), enum=True)],
     },
+    "C13": {
+        "rule": "generated vocabularies, known-value sets, normaliser lists and unknown strings built around planted copies; constructive oracle (exact Offset/Extent/Confidence) with the premise checked on the normalised strings; see part rule",
+        "assumptions": ["a 'copy' is any occurrence of the normalised value in the normalised unknown string found by a left-to-right non-overlapping scan", "panics on goroutines spawned by the library kill the process: the in-flight case is adopted by the driver"],
+        "parts": [part("strcls", "TestVerif_C13", "verbatim", 6000, 120000, shards=(8, 16), prewrite=True)],
+    },
     "C17": {
         "rule": "generated strings (all Unicode space / punctuation kinds, invalid UTF-8) for the tokenizer invariants; generated low-vocabulary source/target pairs for the candidate-range invariants of FindPotentialMatches and TargetRange",
         "assumptions": ["ordering of a candidate's ranges is read as non-decreasing TargetStart"],
